@@ -683,6 +683,9 @@ def m_trapezoid(I, e, args, kws):
     dx = arg(args, kws, 2, "dx")
     ax = axis_arg(args, kws, 3, -1)
     meas = xd if (xd is not None and not (xd.known and xd.const is None)) else dx
+    if xd is not None and dx is not None and (xd.tag("maybe_absent") or dx.tag("maybe_absent")):
+        # the keyword dictionary differs between paths: report the constant-step alternative as its own site
+        I.emit("integrate", e, integrand=y, measure=dx, measure_kw="dx", axis=ax, result=None, kind="trapezoid", alt=True)
     out = mk([y] + ([meas] if meas is not None else []) + [v for k, v in kws.items() if k == "axis"], fresh="FRESH",
              tags={"kind": "ndarray", "notstr": True})
     out.shape = reduce_shape(y.shape, ax, False)
